@@ -442,11 +442,16 @@ retained_modules[module_namespace_name .. ":collation"] = true
 -- to access the functionality that is available in this restricted
 -- environment.  Please report an issue on github if you find a way to
 -- circumvent the environment restrictions and access outside the sandbox.
+local _debug_setmetatable = debug.setmetatable
+
 local function _lua_reset_env()
-    -- Clear some metatables
-    setmetatable(_G, nil)
+    -- Clear some metatables.  (With the setter of the debug library: page
+    -- code can get hold of ``env`` and give it a metatable with a
+    -- __metatable field, which the plain setmetatable() refuses to replace;
+    -- every later invocation of the context would fail here.)
+    _debug_setmetatable(_G, nil)
     -- Clear metatable added by "strict.lua"
-    setmetatable(env, nil)
+    _debug_setmetatable(env, nil)
 
     -- Flushes stdin buffers.  This is mostly used to make sure debug
     -- buffers are properly output before possible crashes.  This is
